@@ -88,6 +88,7 @@ type Result struct {
 	SitesSwitched map[uint32]int
 	ClockEnd    int64
 	TaskPanics  []interface{}
+	SyncSeen    uint64   // yields next to a synchronisation operation (what SyncPoints count)
 	Spawned     int      // goroutines the code under test started (Go)
 	SpawnCap    bool     // more than maxSpawn of them: run aborted
 	SpawnPanics []string // panics that escaped such a goroutine (a real process would have died)
@@ -391,6 +392,9 @@ func (s *sim) pickOther() int {
 //go:norace
 func (s *sim) choose(kind uint8) int {
 	sched := s.cfg.Sched
+	if sched != SchedPCT && (kind == kSync || s.lastKind == kSync) {
+		s.syncSeen++ // counted under every schedule (SchedPCT counts below, where it also acts on it)
+	}
 	if sched != SchedReplay && sched != SchedRandom && s.cfg.SoftSteps != 0 && s.steps > s.cfg.SoftSteps {
 		// bounded fairness: a task spinning on a condition another task must
 		// establish is eventually descheduled
@@ -912,7 +916,7 @@ func (s *sim) result() Result {
 		FaultsFired: map[string]int{"gc": s.firedGC, "clock": s.firedClock, "knob": s.firedKnob},
 		MapPerms: s.mapPerms, MapIters: s.mapIters,
 		Overlap: map[string]int{}, LockSpins: s.lockSpins, SitesSwitched: map[uint32]int{},
-		ClockEnd: s.clock, Spawned: s.spawned, SpawnCap: s.spawnCap,
+		ClockEnd: s.clock, Spawned: s.spawned, SpawnCap: s.spawnCap, SyncSeen: s.syncSeen,
 	}
 	for i := 0; i < s.spawned && i < maxSpawn; i++ {
 		if spawnPanics[i] != nil && !IsAbort(spawnPanics[i]) {
